@@ -490,7 +490,10 @@ with p_type_name (fuel: nat) : M node :=
     decl <- p_abstract_declarator_opt f ;;
     co <- (match decl with
            | Some d => coordA d
-           | None => match s_type P spec with t0 :: _ => coordA t0 | [] => ret None end
+           | None => match s_type P spec with
+                     | t0 :: _ => coordA t0
+                     | [] => match s_alignment P spec with a0 :: _ => coordA a0 | [] => ret None end
+                     end
            end) ;;
     let tn := mkN C_Typename [VStr []; vstrs P (s_qual P spec); VNone; opt_or_empty_typedecl decl] co in
     fix_decl_name_type P (WF) tn (s_type P spec)
@@ -649,11 +652,11 @@ with p_struct_declaration (fuel: nat) : M (option (list node)) :=
         expect K_SEMI ;;;
         r <- build_declarations P spec l false ;; ret (Some r)
       | None =>
-        match s_type P spec with
-        | [nd] =>
+        match (match s_type P spec with [nd] => if is_cls P C_Typename nd then None else Some nd | _ => None end) with
+        | Some nd =>
           expect K_SEMI ;;;
           r <- build_declarations P spec [mkDI P (Some nd) VNone VNone] false ;; ret (Some r)
-        | _ =>
+        | None =>
           expect K_SEMI ;;;
           r <- build_declarations P spec [mkDI P None VNone VNone] false ;; ret (Some r)
         end
@@ -1106,7 +1109,7 @@ with p_statement (fuel: nat) : M node :=
     else if okind_is k K_WHILE || okind_is k K_DO || okind_is k K_FOR then p_iteration_statement f
     else if okind_in k [K_GOTO; K_BREAK; K_CONTINUE; K_RETURN] then p_jump_statement f
     else if okind_is k K_PPPRAGMA || okind_is k K_uPRAGMA then p_pppragma_directive f
-    else if okind_is k K_uSTATIC_ASSERT then (l <- p_static_assert f ;; ret (VList l))
+    else if okind_is k K_uSTATIC_ASSERT then (l <- p_static_assert f ;; match l with x :: _ => ret x | [] => crash CK_Index end)
     else p_expression_statement f
   end
 with p_pragmacomp_or_statement (fuel: nat) : M node :=
